@@ -2,6 +2,7 @@ package main
 
 import (
 	"context"
+	"regexp"
 	"fmt"
 	"os"
 	"os/exec"
@@ -41,15 +42,112 @@ func solverCmd(name string, timeoutS int) []string {
 	return nil
 }
 
+var symRe = regexp.MustCompile(`[A-Za-z_][A-Za-z0-9_]*`)
+
+// assertSyms returns (cached) the declared constants mentioned by assertion i.
+func (e *Enc) assertSyms(i int) []string {
+	e.symMu.Lock()
+	defer e.symMu.Unlock()
+	if e.symCache == nil {
+		e.symCache = map[int][]string{}
+	}
+	if s, ok := e.symCache[i]; ok {
+		return s
+	}
+	var out []string
+	seen := map[string]bool{}
+	for _, m := range symRe.FindAllString(e.asserts[i], -1) {
+		if _, decl := e.declared[m]; decl && !seen[m] {
+			seen[m] = true
+			out = append(out, m)
+		}
+	}
+	e.symCache[i] = out
+	return out
+}
+
+// slice keeps the assertions in the cone of influence of the goal: an assertion is relevant if it shares a
+// non-reachability constant with the relevant set; definitions of reachability constants (at_*) are always kept.
+// Dropping assertions only weakens the hypotheses, so an unsat answer for the slice is an unsat answer for the whole.
+func (o *Obl) slice(n int) []int {
+	e := o.enc
+	rel := map[string]bool{}
+	addText := func(t string) {
+		for _, m := range symRe.FindAllString(t, -1) {
+			if _, decl := e.declared[m]; decl {
+				rel[m] = true
+			}
+		}
+	}
+	addText(o.Guard)
+	addText(o.Goal)
+	for _, x := range o.Extra {
+		addText(x)
+	}
+	isAt := func(s string) bool { return strings.HasPrefix(s, "at_b") }
+	keep := make([]bool, n)
+	for changed := true; changed; {
+		changed = false
+		for i := 0; i < n; i++ {
+			if keep[i] {
+				continue
+			}
+			syms := e.assertSyms(i)
+			hit := false
+			atDef := strings.HasPrefix(e.asserts[i], "(= at_b") || strings.HasPrefix(e.asserts[i], "at_b") || strings.HasPrefix(e.asserts[i], "(not at_b")
+			if atDef {
+				// keep the definition of a reachability constant once that constant is relevant
+				for _, s := range syms {
+					if isAt(s) && rel[s] {
+						hit = true
+					}
+					break
+				}
+			} else {
+				for _, s := range syms {
+					if !isAt(s) && rel[s] {
+						hit = true
+						break
+					}
+				}
+			}
+			if hit {
+				keep[i] = true
+				changed = true
+				for _, s := range syms {
+					rel[s] = true
+				}
+			}
+		}
+	}
+	var out []int
+	for i := 0; i < n; i++ {
+		if keep[i] {
+			out = append(out, i)
+		}
+	}
+	return out
+}
+
 func (o *Obl) query(w *World) (string, bool) {
+	return o.queryOpt(w, false)
+}
+
+func (o *Obl) queryOpt(w *World, sliced bool) (string, bool) {
 	e := o.enc
 	var body strings.Builder
 	n := o.NAssert
 	if n > len(e.asserts) {
 		n = len(e.asserts)
 	}
-	for _, a := range e.asserts[:n] {
-		body.WriteString("(assert " + a + ")\n")
+	if sliced {
+		for _, i := range o.slice(n) {
+			body.WriteString("(assert " + e.asserts[i] + ")\n")
+		}
+	} else {
+		for _, a := range e.asserts[:n] {
+			body.WriteString("(assert " + a + ")\n")
+		}
 	}
 	for _, a := range o.Extra {
 		body.WriteString("(assert " + a + ")\n")
@@ -58,7 +156,7 @@ func (o *Obl) query(w *World) (string, bool) {
 	defs, hasRec := w.specs.definitions(body.String())
 	var q strings.Builder
 	q.WriteString(w.so.prelude())
-	q.WriteString("(declare-fun bytesStr ((Array Int Int) Int) String)\n")
+	q.WriteString("(declare-fun bytesStr ((Array Int Int) Int) String)\n(declare-fun fieldaddr (Int Int) Int)\n(declare-fun fa_ref (Int) Int)\n(declare-fun fa_idx (Int) Int)\n")
 	q.WriteString(defs)
 	for _, d := range e.decls {
 		q.WriteString(d + "\n")
@@ -103,6 +201,34 @@ func solve(w *World, o *Obl, tier string, keepQuery bool) *Result {
 		r.Status = "error"
 		r.Output = o.Label
 		return r
+	}
+	// first try the cone-of-influence slice (an unsat answer for it is final); fall back to the full query
+	if o.enc != nil && o.Kind != "cover" && !o.Short {
+		sq, sRec := o.queryOpt(w, true)
+		solvers := []string{"z3-new", "z3"}
+		if sRec {
+			solvers = []string{"z3-new", "z3", "cvc5"}
+		}
+		type sr struct{ name, ans string }
+		ch := make(chan sr, len(solvers))
+		sctx, scancel := context.WithCancel(context.Background())
+		for _, nm := range solvers {
+			go func(nm string) {
+				a, _, _ := runSolver(sctx, nm, 8, sq, false)
+				ch <- sr{nm, a}
+			}(nm)
+		}
+		t0s := time.Now()
+		for range solvers {
+			x := <-ch
+			if x.ans == "unsat" {
+				scancel()
+				r.Status, r.Solver, r.QueryLen = "discharged", x.name+"/slice", len(sq)
+				r.Seconds = time.Since(t0s).Seconds()
+				return r
+			}
+		}
+		scancel()
 	}
 	q, hasRec := o.query(w)
 	r.QueryLen = len(q)
@@ -157,10 +283,8 @@ func solve(w *World, o *Obl, tier string, keepQuery bool) *Result {
 	pending := 0
 	launch("z3-new", true)
 	pending++
-	if !hasRec {
-		launch("z3", false)
-		pending++
-	}
+	launch("z3", false)
+	pending++
 	late := time.After(time.Duration(first) * time.Second)
 	lateStarted := false
 	var sat *sres
